@@ -46,8 +46,14 @@ def run(tier):
             ("parse_named_groups", [0, 23] * 32767)]
     dcases = [{"id": "deep%d" % k, "fn": fn, "a": za, "input": [{"lit": b, "fill": [0, 0, 0]}], "expect": {"k": "any", "p": -1, "v": [], "n": 0, "e": ""}, "pin": "none",
                "note": {"kind": "deep", "elements": fn}} for k, (fn, b) in enumerate(deep)]
-    douts = vlib.replay_cases(binary, vlib.workdir(PROP, "deep"), dcases, name="deep")
+    # (on a thread with Rust's default 2 MiB stack: what a parser called from a worker thread gets)
+    douts = vlib.replay_cases(binary, vlib.workdir(PROP, "deep"), dcases, name="deep", stack_kb=2048)
     vlib.judge_cases(rep, dcases, douts, keyf=lambda c: "deep:%s:%s" % (c["fn"], c["id"]))
+    # ... and in the UNOPTIMISED build (what `cargo test` runs): an optimiser may turn a per-element recursion into a loop, a debug build does not
+    dev_binary = vlib.build_harness(target="target-dev", dev=True)
+    dcases2 = [dict(c, id=c["id"] + "/dev") for c in dcases]
+    douts2 = vlib.replay_cases(dev_binary, vlib.workdir(PROP, "deep_dev"), dcases2, name="deep", stack_kb=2048)
+    vlib.judge_cases(rep, dcases2, douts2, keyf=lambda c: "deep-dev:%s:%s" % (c["fn"], c["id"]))
     # (2) exhaustive: ALL inputs of length <= 2 over all 256 byte values for every entry point and argument variant
     x2 = os.path.join(d, "x2.ndjson")
     rc, err = vlib.run_harness(binary, ["exhaust2", x2])
